@@ -75,6 +75,7 @@ def contains(cell, r, p, kmax=256):
     if r <= 1:
         K = 16
     info = {}
+    refuted = 0
     while True:
         rg = ring(cell, K)
         w, d = sp.locate(p, rg)
@@ -89,7 +90,15 @@ def contains(cell, r, p, kmax=256):
             if sag is None:
                 return 'unaligned', info
             if d > 2 * sag + tol(r):
-                return 'outside', info
+                # an edge that crosses a seam of the projection has a kink, and the mid-point sagitta can under-estimate the polyline's
+                # error there: a refutation only stands when it is confirmed on the 4x finer ring as well
+                refuted += 1
+                if refuted >= 2 or K >= kmax:
+                    return 'outside', info
+            else:
+                refuted = 0
+        else:
+            refuted = 0
         if K >= kmax:
             return 'tie', info
         K *= 4
@@ -137,9 +146,28 @@ def neighbourhood(lon, lat, ndir=12, scales=SCALES):
     return out
 
 
-def special_sites():
-    """(kind, lon, lat) of the places around which inputs are concentrated: frame points, poles, antimeridian"""
+def face_edge_points():
+    """2 points on each of the 30 dodecahedron edges, half way between the edge midpoint and each end vertex"""
+    fr = frame_points()
+    verts = [sp.vec((lo, la)) for k, lo, la in fr if k == 'face_vertex']
+    out = []
+    for k, lo, la in fr:
+        if k != 'edge_midpoint':
+            continue
+        m = sp.vec((lo, la))
+        near = sorted(verts, key=lambda v: sp.angle(v, m))[:2]
+        for v in near:
+            q = sp.lonlat(sp.lerp_unit(m, v, 0.5))
+            out.append(('face_edge', q[0], q[1]))
+    return out
+
+
+def special_sites(tier='thorough', seed=0):
+    """(kind, lon, lat) of the places around which inputs are concentrated: frame points, poles, antimeridian, face edges
+    (quick tier: a rotating third of the 60 face-edge points)"""
     sites = list(frame_points())
+    fe = face_edge_points()
+    sites += fe if tier == 'thorough' else fe[seed % 3::3]
     sites.append(('pole', 0.0, 90.0))
     sites.append(('pole', 0.0, -90.0))
     for i in range(24):
